@@ -153,8 +153,9 @@ structure St where
   tr : List PObs := []             -- merged observable trace, oldest first
   -- ghost state (never read by the transitions)
   fed : List Nat := []             -- decoded values put on `q2`, in order
-  gone2 : List (Nat × Bool) := []  -- values that left `q2` for good: `(v, true)` handed to the application consumer,
-                                   -- `(v, false)` dropped by a late cancel of `receive_message()` (same known finding as C04)
+  gone2 : List (Nat × Bool) := []  -- values that left `q2` for good: `(v, true)` handed to the application consumer;
+                                   -- `(v, false)` (dropped) is produced by no transition any more (it was the late cancel of
+                                   -- `receive_message()` before the repair of C04-late-cancel-loses-message): `lost2 = []` always
   deriving Inhabited
 
 inductive Ev where
@@ -408,7 +409,10 @@ def stepRun2 (a : ACfg) (s : St) (t : ATid) : St :=
         else startClose a s t (.cleanupClose v)
     | .cleanupClose v => ((s.emit2 (.closeRet (.handler v) .cancelled)).emit2 (.msgAbandon v)).finish2 t
     | .recvWait u =>
-        let s := { s with vres2 := none, rcv2Busy := false, gone2 := s.gone2 ++ s.vres2.toList.map (fun v => (v, false)) }
+        -- late cancel (`vres2 = some v`): the value goes to the stash `_unclaimed` of the second queue, modelled as `q2` with the
+        -- value re-inserted at its head (same argument as in `Sess.stepRun`: `V2` has ended, `D2` is not suspended on `q2` while
+        -- a receive is pending, the stash holds at most one value)
+        let s := { s with vres2 := none, rcv2Busy := false, q2 := s.vres2.toList ++ s.q2 }
         if s.q2Closed then (s.emit2 (.ret u .eoq)).finish2 t else (s.emit2 (.ret u .cancelled)).finish2 t
     | .closeWait u => (s.emit2 (.closeRet (.user u) .cancelled)).finish2 t
     | _ => s.finish2 t
